@@ -651,6 +651,41 @@ func ifaceTypeName(t types.Type) string {
 
 // ---------------------------------------------------------------- builtins
 
+// knownElems: the elements of a slice value (each with the condition under which it is part of the list) when they
+// are statically known: a nil slice, the backing array of a literal / variadic argument list, the result of
+// appending such lists, or a merge of such values at a join.
+func (u *Unit) knownElems(st *State, v Val) ([]Val, []Term, bool) {
+	switch x := v.(type) {
+	case nil:
+		return nil, nil, true
+	case *Scalar:
+		if x.T.S == "0" {
+			return nil, nil, true
+		}
+	case *SliceV:
+		if x.Known {
+			return x.Elems, x.Guards, true
+		}
+		if x.Cell != nil && x.N <= 8 && st != nil {
+			et := types.Type(types.NewInterfaceType(nil, nil))
+			if sl, ok := x.Typ.Underlying().(*types.Slice); ok {
+				et = sl.Elem()
+			}
+			var out []Val
+			var gs []Term
+			for i := 0; i < x.N; i++ {
+				out = append(out, u.loadCell(st, x.Cell, []string{fmt.Sprint(i)}, et))
+				gs = append(gs, TTrue)
+			}
+			return out, gs, true
+		}
+		if x.T.S == "0" {
+			return nil, nil, true
+		}
+	}
+	return nil, nil, false
+}
+
 func (u *Unit) builtin(fr *Frame, st *State, name string, args []Val, cc *ssa.CallCommon, where string) Val {
 	switch name {
 	case "len":
@@ -670,7 +705,17 @@ func (u *Unit) builtin(fr *Frame, st *State, name string, args []Val, cc *ssa.Ca
 				u.assume(st.pc, Eq(App(SInt, "LenOf", r), Arith("+", l0, l1)))
 			}
 		}
-		return &SliceV{T: r, Typ: cc.Signature().Results().At(0).Type()}
+		out := &SliceV{T: r, Typ: cc.Signature().Results().At(0).Type()}
+		if len(args) == 2 {
+			e0, g0, k0 := u.knownElems(st, args[0])
+			e1, g1, k1 := u.knownElems(st, args[1])
+			if k0 && k1 {
+				out.Elems = append(append([]Val{}, e0...), e1...)
+				out.Guards = append(append([]Term{}, g0...), g1...)
+				out.Known = true
+			}
+		}
+		return out
 	case "close":
 		if s, ok := args[0].(*Scalar); ok {
 			if strings.HasPrefix(s.Origin, "chan:") {
